@@ -266,83 +266,7 @@ func checkC07(w *World, c *Check) {
 		})
 	}
 
-	// ---- JSON decoding: top-level, nested item, nested list; hooks unset / set ----
-	for _, cfg := range []string{"hooks-unset", "hooks-set"} {
-		for _, posn := range []string{"top", "item", "list"} {
-			cfg, posn := cfg, posn
-			grp := fmt.Sprintf("C07/JSON/%s/%s", posn, cfg)
-			guard(c, grp, func() {
-				ex := w.NewExec()
-				st := newState()
-				c07InstallLoaderContracts(ex, w, "JSONLoad")
-				var hookCalled *Term = TFalse
-				if cfg == "hooks-set" {
-					g := w.Pkg.Var("JSONItemUnmarshal")
-					hook := &FuncVal{Alts: []FuncAlt{{C: TTrue, Native: func(ex *Exec, st2 *State, a []Value) Value {
-						hookCalled = Or(hookCalled, st2.pc)
-						return Fresh("hookerr", SErr)
-					}}}}
-					st.heap[ex.globalObj(g)] = hook
-				}
-				var doc *Term
-				var resItem *IfaceVal
-				switch posn {
-				case "top":
-					doc = Var("doc", jvSort)
-					ex.knownTerms[jType(doc)] = IntLit(jTypeObject)
-					resItem = ex.Call(st, w.Func("JSONUnmarshalToItem"), []Value{doc}, nil).(*IfaceVal)
-				case "item":
-					parent := Var("parent", jvSort)
-					doc = jGet(parent, StrLit("object"))
-					ex.knownTerms[jType(doc)] = IntLit(jTypeObject)
-					resItem = ex.Call(st, w.Func("JSONGetItem"), []Value{parent, StrLit("object")}, nil).(*IfaceVal)
-				case "list":
-					arr := Var("arr", jvSort)
-					ex.assume(Neq(arr, jvNil))
-					ex.assume(Eq(jType(arr), IntLit(jTypeArray)))
-					ex.knownTerms[App("jlen", SInt, arr)] = IntLit(1)
-					ex.knownTerms[jType(arr)] = IntLit(jTypeArray)
-					ex.knownTerms[Neq(arr, jvNil)] = TTrue
-					doc = Select(App("jarr", ArraySort(jvSort), arr), IntLit(0))
-					ex.knownTerms[jType(doc)] = IntLit(jTypeObject)
-					r := ex.Call(st, w.Func("JSONItemsFn"), []Value{arr}, nil).(*TupleVal)
-					col := r.V[0].(*IfaceVal)
-					sl := ex.payloadAs(col, w.Type("ItemCollection")).(*SliceVal)
-					ex.assume(Implies(ex.NoPanic(), TTrue))
-					resItem = ex.readElem(st, sl, IntLit(0)).(*IfaceVal)
-					// the list must have exactly one member
-					c.Add(&Obligation{Name: grp + "/list-length", Group: grp, Common: append([]*Term{ex.NoPanic(), c07DocHyp(doc)}, ex.assumes...),
-						Hyps: []*Term{strIn(c07DocType(doc), namesNonEmpty(names))}, Goal: And(ex.dynIs(col, w.Type("ItemCollection")), Eq(sliceLen(sl), IntLit(1))), Pos: "JSONItemsFn"})
-				}
-				typ := c07DocType(doc)
-				common := append([]*Term{ex.NoPanic(), c07DocHyp(doc)}, ex.assumes...)
-				_ = typ
-				for _, n := range names {
-					e := entry[n]
-					T := w.Type("*" + e.GoType)
-					p := ex.payloadAs(resItem, T).(*PtrVal)
-					loader := "JSONLoad" + e.GoType
-					gotID := ex.fieldVia(st, p, w.Type(e.GoType), "ID").(*Term)
-					goal := And(ex.dynIs(resItem, T), nonNilPtr(p), ex.calledWith(loader, 1, p), Not(ex.calledOther([]string{"JSONLoad"}, loader)),
-						Eq(gotID, B2S(jStr(jGet(doc, StrLit("id"))))), Not(hookCalled))
-					c.Add(&Obligation{Name: fmt.Sprintf("%s/name=%s", grp, n), Group: grp, Common: common, Hyps: []*Term{Eq(typ, StrLit(n))},
-						Goal: goal, Pos: "JSONLoadItem", Funcs: []string{"JSONLoadItem", "JSONUnmarshalToItem", "JSONGetItem", "JSONItemsFn", "GetItemByType"},
-						Replay: c07JSONReplay(n, e.GoType, posn, cfg == "hooks-set")})
-				}
-				if cfg == "hooks-unset" {
-					var outside []*Term
-					for _, n := range names {
-						outside = append(outside, Neq(typ, StrLit(n)))
-					}
-					// outside the vocabulary without hooks: nothing (or an error), never a value
-					c.Add(&Obligation{Name: grp + "/outside", Group: grp, Common: common, Hyps: outside,
-						Goal: ex.ifaceEq(resItem, &IfaceVal{Alts: []IfaceAlt{{C: TTrue}}}), Pos: "JSONLoadItem", Funcs: []string{"JSONLoadItem"}})
-				}
-				c.Add(&Obligation{Name: grp + "/cover", Group: grp, ExpectSat: true, Common: common, Hyps: []*Term{Eq(typ, StrLit("Note"))},
-					Goal: ex.dynIs(resItem, w.Type("*Object"))})
-			})
-		}
-	}
+	jsonDispatchObligations(w, c, "C07", names, entry)
 
 	gobDispatchObligations(w, c, "C07", names, entry)
 }
@@ -639,4 +563,86 @@ func TestVerifReplay(t *testing.T) {
 }
 `, goType, goTypeLit(n), sp[0], sp[1], goType, n, goType, sp[0], sp[0], goType, sp[0], goType, sp[0])
 	}
+}
+
+// jsonDispatchObligations: the type dispatch of the JSON item decoder, per vocabulary name.
+func jsonDispatchObligations(w *World, c *Check, P string, names []string, entry map[string]vocabEntry) {
+	// ---- JSON decoding: top-level, nested item, nested list; hooks unset / set ----
+	for _, cfg := range []string{"hooks-unset", "hooks-set"} {
+		for _, posn := range []string{"top", "item", "list"} {
+			cfg, posn := cfg, posn
+			grp := fmt.Sprintf("%s/JSON/%s/%s", P, posn, cfg)
+			guard(c, grp, func() {
+				ex := w.NewExec()
+				st := newState()
+				c07InstallLoaderContracts(ex, w, "JSONLoad")
+				var hookCalled *Term = TFalse
+				if cfg == "hooks-set" {
+					g := w.Pkg.Var("JSONItemUnmarshal")
+					hook := &FuncVal{Alts: []FuncAlt{{C: TTrue, Native: func(ex *Exec, st2 *State, a []Value) Value {
+						hookCalled = Or(hookCalled, st2.pc)
+						return Fresh("hookerr", SErr)
+					}}}}
+					st.heap[ex.globalObj(g)] = hook
+				}
+				var doc *Term
+				var resItem *IfaceVal
+				switch posn {
+				case "top":
+					doc = Var("doc", jvSort)
+					ex.knownTerms[jType(doc)] = IntLit(jTypeObject)
+					resItem = ex.Call(st, w.Func("JSONUnmarshalToItem"), []Value{doc}, nil).(*IfaceVal)
+				case "item":
+					parent := Var("parent", jvSort)
+					doc = jGet(parent, StrLit("object"))
+					ex.knownTerms[jType(doc)] = IntLit(jTypeObject)
+					resItem = ex.Call(st, w.Func("JSONGetItem"), []Value{parent, StrLit("object")}, nil).(*IfaceVal)
+				case "list":
+					arr := Var("arr", jvSort)
+					ex.assume(Neq(arr, jvNil))
+					ex.assume(Eq(jType(arr), IntLit(jTypeArray)))
+					ex.knownTerms[App("jlen", SInt, arr)] = IntLit(1)
+					ex.knownTerms[jType(arr)] = IntLit(jTypeArray)
+					ex.knownTerms[Neq(arr, jvNil)] = TTrue
+					doc = Select(App("jarr", ArraySort(jvSort), arr), IntLit(0))
+					ex.knownTerms[jType(doc)] = IntLit(jTypeObject)
+					r := ex.Call(st, w.Func("JSONItemsFn"), []Value{arr}, nil).(*TupleVal)
+					col := r.V[0].(*IfaceVal)
+					sl := ex.payloadAs(col, w.Type("ItemCollection")).(*SliceVal)
+					ex.assume(Implies(ex.NoPanic(), TTrue))
+					resItem = ex.readElem(st, sl, IntLit(0)).(*IfaceVal)
+					// the list must have exactly one member
+					c.Add(&Obligation{Name: grp + "/list-length", Group: grp, Common: append([]*Term{ex.NoPanic(), c07DocHyp(doc)}, ex.assumes...),
+						Hyps: []*Term{strIn(c07DocType(doc), namesNonEmpty(names))}, Goal: And(ex.dynIs(col, w.Type("ItemCollection")), Eq(sliceLen(sl), IntLit(1))), Pos: "JSONItemsFn"})
+				}
+				typ := c07DocType(doc)
+				common := append([]*Term{ex.NoPanic(), c07DocHyp(doc)}, ex.assumes...)
+				_ = typ
+				for _, n := range names {
+					e := entry[n]
+					T := w.Type("*" + e.GoType)
+					p := ex.payloadAs(resItem, T).(*PtrVal)
+					loader := "JSONLoad" + e.GoType
+					gotID := ex.fieldVia(st, p, w.Type(e.GoType), "ID").(*Term)
+					goal := And(ex.dynIs(resItem, T), nonNilPtr(p), ex.calledWith(loader, 1, p), Not(ex.calledOther([]string{"JSONLoad"}, loader)),
+						Eq(gotID, B2S(jStr(jGet(doc, StrLit("id"))))), Not(hookCalled))
+					c.Add(&Obligation{Name: fmt.Sprintf("%s/name=%s", grp, n), Group: grp, Common: common, Hyps: []*Term{Eq(typ, StrLit(n))},
+						Goal: goal, Pos: "JSONLoadItem", Funcs: []string{"JSONLoadItem", "JSONUnmarshalToItem", "JSONGetItem", "JSONItemsFn", "GetItemByType"},
+						Replay: c07JSONReplay(n, e.GoType, posn, cfg == "hooks-set")})
+				}
+				if cfg == "hooks-unset" {
+					var outside []*Term
+					for _, n := range names {
+						outside = append(outside, Neq(typ, StrLit(n)))
+					}
+					// outside the vocabulary without hooks: nothing (or an error), never a value
+					c.Add(&Obligation{Name: grp + "/outside", Group: grp, Common: common, Hyps: outside,
+						Goal: ex.ifaceEq(resItem, &IfaceVal{Alts: []IfaceAlt{{C: TTrue}}}), Pos: "JSONLoadItem", Funcs: []string{"JSONLoadItem"}})
+				}
+				c.Add(&Obligation{Name: grp + "/cover", Group: grp, ExpectSat: true, Common: common, Hyps: []*Term{Eq(typ, StrLit("Note"))},
+					Goal: ex.dynIs(resItem, w.Type("*Object"))})
+			})
+		}
+	}
+
 }
